@@ -9,7 +9,7 @@ package db
 //@ pure idOf(v *vaa.VAA) = struct("vaa.VAAID", v.EmitterChain, v.EmitterAddress, v.TargetChain, v.Sequence)
 
 //@ func (d *Database) GetSignedVAABytes(id vaa.VAAID) (b []byte, err error)
-//@   props C12 C01 C14
+//@   props C01 C05 C12 C14
 //@   requires d != nil
 //@   ensures [found] err == nil ==> stored(d, id) && b == storedBytes(d, id)
 //@   ensures [not-found] err == ErrVAANotFound ==> !stored(d, id)
@@ -19,7 +19,7 @@ package db
 //@   modifies lib:db.store
 
 //@ func (d *Database) StoreSignedVAA(v *vaa.VAA) (err error)
-//@   props C12 C01
+//@   props C01 C05 C12
 //@   requires d != nil
 //@   requires vaa.wfVAA(v) && len(v.Signatures) <= 255
 //@   requires [signed] v != nil && len(v.Signatures) > 0
